@@ -44,7 +44,7 @@ func genTree(r *Rng, n int) []gblock {
 			if len(otherTx) > 0 && r.Chance(1, 2) {
 				t = otherTx[r.Intn(len(otherTx))]
 			} else {
-				t = r.Intn(nTxIDs)
+				t = r.Intn(nSmallTx)
 			}
 			if b.used[t] {
 				continue
@@ -63,7 +63,7 @@ func treeSx(bl []gblock) Sx {
 	for _, b := range bl {
 		txs := SL{}
 		for _, t := range b.txs {
-			txs = append(txs, L(I(int64(t)), I(int64(t%3))))
+			txs = append(txs, L(I(int64(t)), I(int64(logsOfTx(t)))))
 		}
 		out = append(out, L(I(int64(b.id)), I(int64(b.parent)), I(int64(b.number)), txs))
 	}
